@@ -4,6 +4,8 @@ import IrVerif.Model.Sort
 
 Requests: `{"m": "sort.sort", "graph": G}`, `{"m": "sort.universe", "graph": G}` with
 `G = {"g": gid, "n": [N...]}` and `N = {"i": id, "in": [producer id | null ...], "s": [G...]}`;
+`{"m": "sort.pass", "graphs": [G...]}` (TopologicalSortPass over main graph + functions; `partial` = the
+containers right after the sorts, before the restore step of fix D201);
 `{"m": "sort.hyp", "graph": G}` (the hypotheses `WellScoped` / `OrderedG` of the fixpoint theorems);
 `{"m": "sort.relink", "cur": [...], "xs": [...]}`. -/
 open Lean IrVerif.Drive
@@ -42,6 +44,12 @@ def handle : Handler := fun m j =>
       let g ← parseGraph (← j.getObjVal? "graph")
       return obj [("r", Json.arr ((nodesOf g).map (fun e =>
         Json.arr #[toJson e.id, toJson e.gid])).toArray)]
+  | "sort.pass" => some do
+      let gsJ ← getArr j "graphs"
+      let gs ← gsJ.mapM parseGraph
+      let e := passEffect gs
+      return obj [("raised", toJson e.1), ("after", Json.arr (e.2.map graphsJ).toArray),
+        ("partial", Json.arr ((passSorts gs).2.map graphsJ).toArray)]
   | "sort.hyp" => some do
       let g ← parseGraph (← j.getObjVal? "graph")
       return obj [("ws", toJson (decide (WellScoped g))),
